@@ -245,6 +245,22 @@ fn tree_from_triples(f: &mut Forest, blob: &[u8], tr: &[ParsedTriple]) -> Option
     ids.into_iter().collect()
 }
 
+/// a reader that hands out at most `step` bytes per call
+struct ShortReader<'a> {
+    data: &'a [u8],
+    pos: usize,
+    step: usize,
+}
+
+impl std::io::Read for ShortReader<'_> {
+    fn read(&mut self, buf: &mut [u8]) -> std::io::Result<usize> {
+        let n = buf.len().min(self.step).min(self.data.len() - self.pos);
+        buf[..n].copy_from_slice(&self.data[self.pos..self.pos + n]);
+        self.pos += n;
+        Ok(n)
+    }
+}
+
 fn check16(ctx: &mut Ctx, b: &[u8]) {
     ctx.eval();
     // linear in the input: parse_triples keeps a 24-byte triple and a 32-byte hash per node
@@ -272,6 +288,38 @@ fn check16(ctx: &mut Ctx, b: &[u8]) {
         ctx.violation("decoder-panicked", json!({"input": input()}));
         return;
     };
+    // (2b) parse_triples without hashes (skips atom bodies instead of reading them) and (2c) the same through a
+    // reader that returns a few bytes per call: acceptance, triples and consumed length must not depend on either
+    {
+        let mut cur = Cursor::new(b);
+        let plain = guarded(|| parse_triples(&mut cur, false));
+        let mut short = ShortReader { data: b, pos: 0, step: 1 + (b.len() % 3) };
+        let sr = guarded(|| parse_triples(&mut short, true));
+        let mut short2 = ShortReader { data: b, pos: 0, step: 1 + (b.len() % 5) };
+        let sr2 = guarded(|| parse_triples(&mut short2, false));
+        let with = &r2;
+        match (plain, sr, sr2) {
+            (Ok(without), Ok(s1), Ok(s2)) => {
+                let same = |x: &clvmr::error::Result<(Vec<ParsedTriple>, Option<Vec<[u8; 32]>>)>, hashes: bool, pos: u64| match (with, x) {
+                    (Ok((t0, h0)), Ok((t1, h1))) => t0 == t1 && (if hashes { h0 == h1 } else { h1.is_none() }) && pos == cur2.position(),
+                    (Err(_), Err(_)) => true,
+                    _ => false,
+                };
+                if !same(&without, false, cur.position()) {
+                    ctx.violation("parse_triples-depends-on-hash-flag", json!({"input": input(), "with_hashes_ok": with.is_ok(), "without_hashes_ok": without.is_ok(),
+                        "consumed_with": cur2.position(), "consumed_without": cur.position()}));
+                }
+                if !same(&s1, true, short.pos as u64) || !same(&s2, false, short2.pos as u64) {
+                    ctx.violation("parse_triples-depends-on-read-chunking", json!({"input": input(), "cursor_ok": with.is_ok(), "short_reads_ok": [s1.is_ok(), s2.is_ok()]}));
+                }
+                ctx.count("parse_triples_flag_and_chunking_compared");
+            }
+            _ => {
+                ctx.violation("decoder-panicked", json!({"input": input(), "decoder": "parse_triples (no hashes / short reads)"}));
+                return;
+            }
+        }
+    }
     let oks = (r1.is_ok(), r2.is_ok(), r3.is_ok());
     if oks.0 != oks.1 || oks.0 != oks.2 {
         ctx.violation("decoders-disagree-on-acceptance", json!({"input": input(), "node_from_bytes": oks.0, "parse_triples": oks.1, "tree_hash_from_stream": oks.2}));
